@@ -305,7 +305,7 @@ func runC10(tb ev.TB, p c10Prog) ev.Result {
 
 func TestC10(t *testing.T) {
 	c := ev.Get("C10")
-	c.Rule = "a generated multi-replica program builds a stored log; a loader (manifest / JSON heads / entries: 1-4 supplied entries, heads or arbitrary entries of the log / entry hash of any entry), a limit n in {0,1,2,size/2,size-1,size,size+1,size+3,random} and three executions with generated concurrency and completion schedules (gated store) are drawn. Oracle from the registry: result ⊆ causal past of the start, |result| == min(max(n,k),size), supplied ⊆ result, no excluded entry strictly newer in (time, clock id) than an included non-supplied one, and identical result sets across the three executions when (time, id) pairs are distinct. Non-trivial = forked log with skip references, 0 < n < size, and a read completed out of issue order; distinct = distinct program. The supplied slice has generated spare capacity (0, 1, 4, 64, 2000)."
+	c.Rule = "a generated multi-replica program builds a stored log; a loader (manifest / JSON heads / entries: 1-4 supplied entries, heads or arbitrary entries of the log / entry hash of any entry), a limit n in {0,1,2,size/2,size-1,size,size+1,size+3,random} and three executions with generated concurrency and completion schedules (gated store) are drawn. Oracle from the registry: result ⊆ causal past of the start, |result| == min(max(n,k),size), supplied ⊆ result, no excluded entry strictly newer in (time, clock id) than an included non-supplied one, and identical result sets across the three executions when (time, id) pairs are distinct. Non-trivial = forked log with skip references, 0 < n < size, and a read completed out of issue order; distinct = distinct program. The supplied slice has generated spare capacity (0, 1, 4, 64, 2000). In a quarter of the programs an earlier load of another log in the same store was abandoned (context cancelled before, or a few block reads into, the load)."
 	c.Assumptions = []string{"ties in (clock time, clock id) may be resolved either way", "size is the number of entries reachable from the start (the whole log for manifest / JSON heads)"}
 	ev.Check(t, "C10", genC10, runC10)
 }
